@@ -123,7 +123,9 @@ void StatusPrinter::BuildEdgeStarted(const Edge* edge,
   if (edge->use_console() || printer_.is_smart_terminal())
     PrintStatus(edge, start_time_millis);
 
-  if (edge->use_console())
+  // In a dry run nothing writes to the console: do not hold back the lines
+  // of the other commands, the listing would lose all but the last of them.
+  if (edge->use_console() && !config_.dry_run)
     printer_.SetConsoleLocked(true);
 }
 
